@@ -63,6 +63,7 @@ InitContainer ==
                              \* PolarsOptionalRegexColumnNotValidated): outside the neutral vocabulary
      /\ st = Start([BaseSchema EXCEPT
                    !.cols = << [BaseCol EXCEPT !.key = A, !.dtype = "int64", !.coerce = ca,
+                                               !.default = IF dflt THEN iv(1) ELSE NA,   \* a missing FIRST column can be added
                                                !.checks = <<Chk("ge", <<iv(1)>>)>>],
                                 [BaseCol EXCEPT !.key = kb[1], !.regex = kb[2], !.dtype = tb[1],
                                                !.default = IF ~dflt THEN NA ELSE IF tb[1] = "float64" THEN fv(1) ELSE iv(1),
@@ -99,6 +100,10 @@ DefaultApplies(S, D) ==
 (* silently accepted on polars: polars treats it like required=False                                            *)
 RegexNoMatchApplies(S, D) ==
   \E i \in 1..Len(S.cols) : S.cols[i].regex /\ S.cols[i].required /\ ~\E p \in 1..Len(D.cols) : Matches(S.cols[i], D.cols[p].name)
+(* polars frames hold null (not NaN): a float default never fills a column that is present (a missing column *)
+(* is still created from its default by add_missing_columns)                                                *)
+NoFloatDefault(S, D) == [S EXCEPT !.cols = [ i \in 1..Len(@) |->
+   IF @[i].dtype = "float64" /\ \E p \in 1..Len(D.cols) : Matches(@[i], D.cols[p].name) THEN [@[i] EXCEPT !.default = NA] ELSE @[i] ]]
 RegexOptional(S) == [S EXCEPT !.cols = [ i \in 1..Len(@) |-> IF @[i].regex THEN [@[i] EXCEPT !.required = FALSE] ELSE @[i] ]]
 MissingLeakApplies(S, D) ==
   \E i \in 1..Len(S.cols) : ~(\E p \in 1..Len(D.cols) : Matches(S.cols[i], D.cols[p].name))
@@ -127,5 +132,8 @@ Emit ==
                                     THEN {"DuplicateNullsNotReported"} ELSE {},
                     polars_devs |-> PolarsDevs(st.S, st.inp0),
                     (* exact alternative prediction for the two value-level deviations *)
-                    polars_asis |-> Pred(Run(Start(RegexOptional(PolarsAltSchema(WithReportAll(st.S))), st.inp0, st.lazy, FALSE, {})))]))
+                    polars_drops |-> IF AddMissingDropsApplies(st.S, st.inp0)
+                                     THEN {st.inp0.cols[p].name : p \in {q \in 1..Len(st.inp0.cols) : ~Declared(st.S, st.inp0, st.inp0.cols[q].name)}}
+                                     ELSE {},
+                    polars_asis |-> Pred(Run(Start(NoFloatDefault(RegexOptional(PolarsAltSchema(WithReportAll(st.S))), st.inp0), st.inp0, st.lazy, FALSE, {})))]))
 =============================================================================
